@@ -226,7 +226,7 @@ def uniq(sequence: ArrayT, key: object = None) -> list[object]:
         for obj in sequence:
             try:
                 item = obj[key]
-            except KeyError:
+            except (KeyError, IndexError):
                 item = MISSING
             except TypeError as err:
                 raise FilterArgumentError(
